@@ -152,6 +152,22 @@ def extra(binary, build, tier, rng):
             o = oracle(q, fr, build) if fr != "panic" else "a fill of 64 KiB or more panicked"
             if o:
                 yield {"kind": "oracle", "build": build, "request": q, "impl": fr[:300], "model": "", "oracle": o}
+    if build == "release":
+        # destinations of 2^32 bytes and more (ChaCha through fill_bytes and through io::Read, a word generator): every byte written, full length reported
+        reqs = ["bigfill gen=chacha8 seed=11 pre32=1 len=%d api=read" % ((1 << 32) + 16), "bigfill gen=chacha8 seed=12 pre32=1 len=%d api=fill_bytes" % (1 << 32),
+                "bigfill gen=chacha20 seed=13 pre32=0 len=%d api=fill_bytes" % ((1 << 32) + 300), "bigfill gen=wyrand seed=14 pre32=1 len=%d api=read" % ((1 << 32) + 5)]
+        for q, o in zip(reqs, C.run_parallel(binary, reqs)):
+            f = dict(t.split(":", 1) for t in o.split()) if o.startswith("le:") else {}
+            want = q.split("len=")[1].split()[0]
+            if not f:
+                yield {"kind": "oracle", "build": build, "request": q, "impl": o, "model": "", "oracle": "a fill of 2^32 bytes or more failed: " + o}
+            elif f["zero_windows"] != "0":
+                yield {"kind": "oracle", "build": build, "request": q, "impl": o, "model": "", "oracle": "%s of %s probed 4 KiB windows of a %s-byte destination were left unwritten (still zero)" % (f["zero_windows"], f["of"], want)}
+            elif "api=read" in q and f["ret"] != want:
+                yield {"kind": "oracle", "build": build, "request": q, "impl": o, "model": "", "oracle": "io::Read::read reported %s for a %s-byte destination" % (f["ret"], want)}
+            elif f["le"] not in ("ok", "-"):
+                yield {"kind": "oracle", "build": build, "request": q, "impl": o, "model": "", "oracle": "byte %s of a %s-byte fill is not the little-endian word stream" % (f["le"], want)}
+        yield {"kind": "count", "what": "huge-fill-requests", "n": len(reqs)}
     yield {"kind": "count", "what": "le-word-stream-checks", "n": len(cases)}
 
 
